@@ -766,6 +766,157 @@ fn run_f64(alg: &str, rows: usize, cols: usize, kind: &str, seed: u64, via: &str
 }
 
 // ---------------------------------------------------------------------------------------------
+// API surface of the decomposition result structs (C08 scope): every public constructor and every
+// trait impl, driven with factors that differ from one another in shape and in every value
+// ---------------------------------------------------------------------------------------------
+
+/// `Display` must print each factor under its own label: `<a>:\n<first>\n<b>:\n<second>`; the
+/// labels are parsed out of the text and the two blocks compared with the factors' own `Display`
+fn labelled_blocks(text: &str, a: &str, b: &str, first: &str, second: &str) -> bool {
+    let rest = match text.strip_prefix(&format!("{}:\n", a)) {
+        Some(r) => r,
+        None => return false,
+    };
+    match rest.split_once(&format!("\n{}:\n", b)) {
+        Some((x, y)) => x == first && y == second,
+        None => false,
+    }
+}
+
+/// `Debug` must show the type's name and each field under its own name
+fn debug_fields(text: &str, ty: &str, a: &str, b: &str, first: &str, second: &str) -> bool {
+    text.starts_with(ty) && text.contains(&format!("{}: {}", a, first)) && text.contains(&format!("{}: {}", b, second))
+}
+
+macro_rules! struct_surface {
+    ($Struct:ident, $fa:ident, $fb:ident, $la:expr, $lb:expr, $first:expr, $second:expr, $other_first:expr, $other_second:expr) => {{
+        let (first, second) = ($first, $second);
+        let made = linear_algebra::$Struct::from_unchecked(first.clone(), second.clone());
+        let from_unchecked = made.$fa == first && made.$fb == second;
+        // the remaining facts are relative to what the struct holds, so that a constructor slip
+        // is reported by `from_unchecked` alone
+        let (held_a, held_b) = (made.$fa.clone(), made.$fb.clone());
+        let copy = made.clone();
+        let clone = copy.$fa == held_a && copy.$fb == held_b;
+        // `clone_from` into a value that differs from the source in every field, directly and
+        // through the containers that forward to it
+        let mut target = linear_algebra::$Struct::from_unchecked($other_first, $other_second);
+        target.clone_from(&made);
+        let mut in_vec = vec![linear_algebra::$Struct::from_unchecked($other_first, $other_second)];
+        in_vec.clone_from(&vec![made.clone()]);
+        let mut in_option = Some(linear_algebra::$Struct::from_unchecked($other_first, $other_second));
+        in_option.clone_from(&Some(made.clone()));
+        let got = in_option.unwrap();
+        let clone_from = target.$fa == held_a && target.$fb == held_b
+            && in_vec[0].$fa == held_a && in_vec[0].$fb == held_b
+            && got.$fa == held_a && got.$fb == held_b;
+        let display = labelled_blocks(&format!("{}", made), $la, $lb, &format!("{}", held_a), &format!("{}", held_b));
+        let debug = debug_fields(
+            &format!("{:?}", made), stringify!($Struct), stringify!($fa), stringify!($fb),
+            &format!("{:?}", held_a), &format!("{:?}", held_b),
+        );
+        format!(
+            "from_unchecked={} clone={} clone_from={} display={} debug={}",
+            ok(from_unchecked), ok(clone), ok(clone_from), ok(display), ok(debug)
+        )
+    }};
+}
+
+fn run_api(toks: &[&str]) -> String {
+    let ids = |from: u64, n: usize| (0..n as u64).map(|i| Fp(from + i)).collect::<Vec<Fp>>();
+    let m = |r: usize, c: usize, from: u64| Matrix::from_flat_row_major((r, c), ids(from, r * c));
+    let t = |r: usize, c: usize, from: u64| Tensor::from([("a", r), ("b", c)], ids(from, r * c));
+    let r = catch(|| match (toks[2], toks[3]) {
+        ("ldlt", "matrix") => struct_surface!(LDLTDecomposition, l, d, "L", "D", m(3, 3, 1), m(2, 2, 100), m(1, 2, 500), m(2, 1, 700)),
+        ("ldlt", "tensor") => struct_surface!(LDLTDecompositionTensor, l, d, "L", "D", t(3, 3, 1), t(2, 2, 100), t(1, 2, 500), t(2, 1, 700)),
+        ("qr", "matrix") => struct_surface!(QRDecomposition, q, r, "Q", "R", m(3, 3, 1), m(3, 2, 100), m(1, 2, 500), m(2, 1, 700)),
+        ("qr", "tensor") => struct_surface!(QRDecompositionTensor, q, r, "Q", "R", t(3, 3, 1), t(3, 2, 100), t(1, 2, 500), t(2, 1, 700)),
+        _ => "bad-op".to_string(),
+    });
+    match r {
+        Ok(s) => s,
+        Err(k) => panic_str(k),
+    }
+}
+
+/// The public items of the C08 result structs found in the checkout under test, against the list
+/// of items the `api` lines drive; anything public that is not driven is counted as
+/// `api.undriven.<item>` in the input distribution.
+pub fn scan_public_items(g: &mut Gen, file: &str, types: &[&str], driven: &[&str]) {
+    let repo = std::env::var("EASYML_REPO").unwrap_or_else(|_| "/repo".to_string());
+    let text = match std::fs::read_to_string(format!("{}/{}", repo, file)) {
+        Ok(t) => t,
+        Err(_) => {
+            g.count("api.scan-unavailable");
+            return;
+        }
+    };
+    let mut current: Option<String> = None; // the type of the impl block / item we are in
+    let mut derives: Vec<String> = vec![];
+    let mut items: Vec<String> = vec![];
+    for line in text.lines() {
+        let l = line.trim_start();
+        if let Some(rest) = l.strip_prefix("#[derive(") {
+            derives = rest.trim_end_matches(")]").split(',').map(|d| d.trim().to_string()).collect();
+            continue;
+        }
+        let named = |l: &str| types.iter().copied().find(|t| {
+            l.split(|c: char| !(c.is_alphanumeric() || c == '_')).any(|w| w == *t)
+        });
+        if l.starts_with("pub struct ") || l.starts_with("pub enum ") {
+            if let Some(t) = named(l) {
+                for d in &derives {
+                    items.push(format!("{}:derive({})", t, d));
+                }
+            }
+            derives.clear();
+            continue;
+        }
+        if !line.starts_with(' ') && l.starts_with("impl") {
+            current = named(l).map(|t| t.to_string());
+            if let (Some(t), Some(pos)) = (&current, l.find(" for ")) {
+                let tr = l[..pos].rsplit(|c: char| c == ' ' || c == ':').next().unwrap_or("").to_string();
+                items.push(format!("{}:impl({})", t, tr));
+            }
+            continue;
+        }
+        if !line.starts_with(' ') && !l.is_empty() && !l.starts_with("//") && !l.starts_with('}') && !l.starts_with("where") && !l.starts_with('{') {
+            if !l.starts_with("for<") && !l.starts_with("T:") {
+                current = None;
+            }
+        }
+        if let (Some(t), Some(rest)) = (&current, l.strip_prefix("pub fn ")) {
+            let name: String = rest.chars().take_while(|c| c.is_alphanumeric() || *c == '_').collect();
+            items.push(format!("{}::{}", t, name));
+        }
+    }
+    items.sort();
+    items.dedup();
+    for item in items {
+        if driven.contains(&item.as_str()) {
+            g.count(&format!("api.driven.{}", item));
+        } else {
+            g.count(&format!("api.undriven.{}", item));
+        }
+    }
+}
+
+const C08_TYPES: [&str; 4] =
+    ["LDLTDecomposition", "LDLTDecompositionTensor", "QRDecomposition", "QRDecompositionTensor"];
+const C08_DRIVEN: [&str; 20] = [
+    "LDLTDecomposition::from_unchecked", "LDLTDecomposition:derive(Clone)", "LDLTDecomposition:derive(Debug)",
+    "LDLTDecomposition:impl(Display)", "LDLTDecompositionTensor::from_unchecked",
+    "LDLTDecompositionTensor:derive(Clone)", "LDLTDecompositionTensor:derive(Debug)",
+    "LDLTDecompositionTensor:impl(Display)", "QRDecomposition::from_unchecked", "QRDecomposition:derive(Clone)",
+    "QRDecomposition:derive(Debug)", "QRDecomposition:impl(Display)", "QRDecompositionTensor::from_unchecked",
+    "QRDecompositionTensor:derive(Clone)", "QRDecompositionTensor:derive(Debug)",
+    "QRDecompositionTensor:impl(Display)",
+    // a hand-written Clone would show up as impl(Clone): it is driven by the same lines
+    "LDLTDecomposition:impl(Clone)", "LDLTDecompositionTensor:impl(Clone)", "QRDecomposition:impl(Clone)",
+    "QRDecompositionTensor:impl(Clone)",
+];
+
+// ---------------------------------------------------------------------------------------------
 // runner
 // ---------------------------------------------------------------------------------------------
 
@@ -777,6 +928,9 @@ impl Runner {
     }
 
     pub fn step(&mut self, toks: &[&str]) -> String {
+        if toks.len() >= 4 && toks[0] == "@" && toks[1] == "api" {
+            return run_api(toks);
+        }
         if toks.len() < 6 || toks[0] != "@" {
             return "bad-op".into();
         }
@@ -956,6 +1110,15 @@ fn rat_bbt(g: &mut Gen, n: usize, c: i64) -> Vec<Rat> {
 }
 
 pub fn gen(g: &mut Gen) {
+    // ---- API surface of the result structs ---------------------------------------------------------
+    for alg in ["ldlt", "qr"] {
+        for api in ["matrix", "tensor"] {
+            g.op(format!("@ api {} {}", alg, api));
+            g.count("api.struct-surface");
+        }
+    }
+    scan_public_items(g, "src/linear_algebra.rs", &C08_TYPES, &C08_DRIVEN);
+
     let max_n = if g.thorough { 8 } else { 4 };
     let max_rat = if g.thorough { 6 } else { 4 };
     let reps = if g.thorough { 120 } else { 32 };
@@ -1300,5 +1463,4 @@ pub fn gen(g: &mut Gen) {
                 g.count(&format!("{}.trace-elements.zero-valued-factor-entries", alg));
             }
         }
-    }
-}
+    }}
